@@ -60,7 +60,7 @@ def params(tier):
     if tier == 'quick':
         return {'examples': 200, 'wall': 80, 'case_timeout': 60, 'files': 120}
 
-    return {'examples': 1500, 'wall': 600, 'case_timeout': 120, 'files': 400}
+    return {'examples': 6000, 'wall': 600, 'case_timeout': 120, 'files': 400}
 
 
 def floors(tier):
